@@ -20,6 +20,7 @@
 EXTENDS EQLSem
 
 \* ---------------- construction ----------------
+ReflectOp(op) == CASE op = "lt" -> "gt" [] op = "gt" -> "lt" [] op = "le" -> "ge" [] op = "ge" -> "le" [] OTHER -> op
 InvOp(op) == CASE op = "eq" -> "ne" [] op = "ne" -> "eq" [] op = "lt" -> "ge" [] op = "ge" -> "lt"
                [] op = "gt" -> "le" [] op = "le" -> "gt"
 RECURSIVE Build(_), Negate(_)
@@ -29,7 +30,9 @@ Negate(n) ==
     [] n.k = "and"  -> [k |-> "elif", l |-> Negate(n.l), r |-> Negate(n.r)]
     [] n.k = "elif" -> [k |-> "and", l |-> Negate(n.l), r |-> Negate(n.r)]
 Build(c) ==
-  CASE c.k = "cmp"   -> [k |-> "cmp", op |-> c.op, inv |-> FALSE, l |-> c.l, r |-> c.r]
+  CASE c.k = "cmp"   -> IF c.l.k = "lit"        \* Python reflects `1 > x.n` to `x.n < 1`: the expression is always on the left
+                        THEN [k |-> "cmp", op |-> ReflectOp(c.op), inv |-> FALSE, l |-> c.r, r |-> c.l]
+                        ELSE [k |-> "cmp", op |-> c.op, inv |-> FALSE, l |-> c.l, r |-> c.r]
     [] c.k = "in"    -> [k |-> "in", inv |-> FALSE, l |-> c.cont, r |-> c.item]      \* Comparator(container, item, contains)
     [] c.k = "truth" -> [k |-> "truth", inv |-> FALSE, e |-> c.e]
     [] c.k = "pred"  -> [k |-> "pred", inv |-> FALSE, p |-> c.p, args |-> c.args]
